@@ -741,8 +741,7 @@ func (fe *FnExec) bindLets(fr *frame, ctx *EvalCtx) {
 	for _, l := range fr.con.Lets {
 		ci, ok := fr.callIdx[l.Call]
 		if !ok {
-			fe.errorf("%s: let refers to unknown call site %s (have %v)", fr.name, l.Call, callKeys(fr))
-			continue
+			continue // clauses using the name fail to evaluate and are reported individually
 		}
 		v, ok := fe.regs[ci.(ssa.Value)]
 		if !ok {
